@@ -7,6 +7,7 @@ import (
 	"encoding/csv"
 	"errors"
 	"fmt"
+	"io"
 	"math/big"
 	"net/url"
 	"os"
@@ -535,7 +536,14 @@ func (svr *StrictServerImpl) loadCsvTrustMatrix(
 	}
 	var entries []sparse.CooEntry
 	var size = 0
-	for record, err := r.Read(); err == nil; record, err = r.Read() {
+	for {
+		record, err := r.Read()
+		if err == io.EOF {
+			break
+		}
+		if err != nil {
+			return nil, fmt.Errorf("cannot read CSV record: %w", err)
+		}
 		if len(record) != 3 {
 			return nil, fmt.Errorf("invalid CSV record %#v", record)
 		}
@@ -546,6 +554,9 @@ func (svr *StrictServerImpl) loadCsvTrustMatrix(
 		j, err := strconv.Atoi(record[1])
 		if err != nil {
 			return nil, fmt.Errorf("invalid j=%#v: %w", record[1], err)
+		}
+		if i < 0 || j < 0 {
+			return nil, fmt.Errorf("negative index in CSV record %#v", record)
 		}
 		v, err := strconv.ParseFloat(record[2], 64)
 		if err != nil {
@@ -665,13 +676,23 @@ func (svr *StrictServerImpl) loadCsvTrustVector(
 	}
 	var entries []sparse.Entry
 	var size = 0
-	for record, err := r.Read(); err == nil; record, err = r.Read() {
+	for {
+		record, err := r.Read()
+		if err == io.EOF {
+			break
+		}
+		if err != nil {
+			return nil, fmt.Errorf("cannot read CSV record: %w", err)
+		}
 		if len(record) != 2 {
 			return nil, fmt.Errorf("invalid CSV record %#v", record)
 		}
 		i, err := strconv.Atoi(record[0])
 		if err != nil {
 			return nil, fmt.Errorf("invalid i=%#v: %w", record[0], err)
+		}
+		if i < 0 {
+			return nil, fmt.Errorf("negative index in CSV record %#v", record)
 		}
 		v, err := strconv.ParseFloat(record[1], 64)
 		if err != nil {
